@@ -7,7 +7,7 @@ for f in sorted(glob.glob(os.path.join(HERE, "seeded", "*", "meta.json"))):
     m = json.load(open(f))
     others = [c for c in m["caught_by"] if c != m["breaks_property"]]
     rows.append("| %s | %s | %s | %s | %s |" % (m["id"], m["change"].replace("|", "\\|"), m["needs_to_manifest"].replace("|", "\\|"),
-        ("**yes** (while it applied; retired after repair 29aafbd removed the hazard)" if m.get("retired") else "**yes**") if m["caught_by_target_check"] else ("not reported — by design, the statement leaves this case open (see below)" if m["id"] in ("C04-E", "C14-D", "C13-K", "C17-AE") else ("**NO** (the site is the TUI wrapper, outside C11's harness; C17 reports it)" if m["id"] == "C11-N" else "**NO**")), "not run" if m.get("checks_run", "").startswith("waves 11-1") else (", ".join(others) if others else "–")))
+        ("**yes** (while it applied; retired after repair 29aafbd removed the hazard)" if m.get("retired") else "**yes**") if m["caught_by_target_check"] else ("not reported — by design, the statement leaves this case open (see below)" if m["id"] in ("C04-E", "C14-D", "C13-K", "C17-AE") else "**NO**"), "not run" if m.get("checks_run", "").startswith("waves 11-1") and m["id"] != "C11-N" else (", ".join(others) if others else "–")))
 table = "| id | change | needs | caught by the quick check of its own property | other quick checks that also alarm |\n|---|---|---|---|---|\n" + "\n".join(rows) + "\n"
 p = os.path.join(HERE, "DESIGN.md")
 s = open(p).read()
